@@ -145,6 +145,12 @@ impl<T: FileReader> RVParser<T> {
             RawToken::new(String::new(), Range::default(), first_uuid),
         ));
 
+        // A file may be included any number of times, so the text that is read can grow
+        // exponentially with the size of the files (each of n files including the next one
+        // twice is read 2^n times): the number of inclusions in one run is limited
+        const MAX_INCLUSIONS: usize = 4096;
+        let mut inclusions = 0;
+
         while let Some(l) = self.lexer() {
             let node = ParserNode::try_from(l);
 
@@ -152,6 +158,16 @@ impl<T: FileReader> RVParser<T> {
                 Ok(x) => {
                     if !ignore_imports {
                         if let Some(path) = x.get_include_path() {
+                            inclusions += 1;
+                            if inclusions > MAX_INCLUSIONS {
+                                parse_errors.push(
+                                    crate::reader::FileReaderError::IOErr(format!(
+                                        "more than {MAX_INCLUSIONS} files included"
+                                    ))
+                                    .to_parse_error(path.clone()),
+                                );
+                                continue;
+                            }
                             match self.reader.import_file(path.get(), Some(path.file())) {
                                 Ok((new_uuid, new_text)) => {
                                     // A file that is still being read must not be read
